@@ -231,4 +231,17 @@ PROPS = {
                 "is not a multiple of 3, a multi-valued key, a reserved key, or a failing RPC; distinct = the whole case.",
         "assumptions": ["trailers are not expected on plain HTTP transcoding"],
     },
+    "C18": {
+        "pkg": "c18",
+        "stages": [{"run": "^TestProp$", "quick": (5000, 4), "thorough": (60000, 16)}],
+        "technique": "property-based testing (rapid): generated RPC scripts x protocol x option subsets with recording interceptors and stats handler; event-grammar oracle plus an options-on/off metamorphic relation",
+        "level_text": "Generated-input search over unary and the three streaming shapes on HTTP transcoding, gRPC and gRPC-web, message sizes from empty upward (incl. < 5 bytes), "
+                      "successful and failing handlers and every subset of {unary interceptor, stream interceptor, stats handler} with pass-through, reply-replacing, error-replacing and "
+                      "context-decorating interceptors: interceptor call counts/info, the stats event grammar and the transparency relation (options on == options off) are checked. Exploration only.",
+        "level_note": "In-process transports; WebSocket is outside the property's quantifier; Client/WireLength fields of payload events are not asserted.",
+        "rule": "rapid draws shape, transport (HTTP POST/GET, gRPC, gRPC-web), 0-4 request messages with encoded size in {0,2..7,40,200}, 0-4 replies, an optional failure after 0-2 replies, "
+                "the option subset and the interceptor behaviour; every case is executed twice (options off / on). Non-trivial = at least one option on and (streaming shape or failing "
+                "handler or a message shorter than 5 bytes); distinct = the whole case.",
+        "assumptions": [],
+    },
 }
